@@ -1,6 +1,6 @@
 #!/usr/bin/env python3
 """MANUAL tool: print the normalised form of functions, on /repo or on /repo with a stored change applied.
-usage: tools/shownorm.py [benign/<id> | seeded/<id> | -] <module.qualname> ..."""
+usage: tools/shownorm.py [benign/<id> | seeded/<id> | /abs/tree | -] <module.qualname> ..."""
 import ast, os, shutil, subprocess, sys, tempfile
 HERE = os.path.dirname(os.path.dirname(os.path.abspath(__file__)))
 sys.path.insert(0, HERE)
@@ -8,7 +8,9 @@ which = sys.argv[1]
 wt = None
 root = "/repo"
 try:
-    if which != "-":
+    if which.startswith("/"):
+        root = which
+    elif which != "-":
         wt = tempfile.mkdtemp(prefix="shown-")
         shutil.copytree("/repo/mako", os.path.join(wt, "mako"), ignore=shutil.ignore_patterns("__pycache__"))
         d = os.path.join(HERE, which)
